@@ -150,11 +150,23 @@ def zero_array_established(w, n=6):
     if any(isinstance(k, tuple) and k and k[0] == 'eq' and vv is True for k, vv in w.facts.items()):
         return True
     groups = {}
+    cells = {}
     for c in w.store.cons:
         for a_, _ in c.terms:
             d_ = ATOMS.info(a_).defn
             if d_ and d_[0] == 'arr_elem':
                 groups.setdefault(d_[1], set()).add(a_)
+            elif d_ and d_[0] == 'elem' and d_[2].is_const():
+                cells.setdefault(d_[1], {})[d_[2].const] = a_
+    # the label bytes read as cells of the packet itself (an array that is "the bytes of packet[k..k+n)")
+    for tag, by_idx in cells.items():
+        for k in by_idx:
+            if all((k + i) in by_idx for i in range(n)):
+                total = Lin.c(0)
+                for i in range(n):
+                    total = total + Lin.atom(by_idx[k + i])
+                if w.store.entails(le(total, Lin.c(0))):
+                    return True
     for content in groups:
         total = Lin.c(0)
         ok = True
